@@ -1204,9 +1204,14 @@ def sampling_function(func_or_arr, domain, out_dtype=None):
                             out_comp[:] = f
                         else:
                             has_out, _ = _func_out_type(f)
-                            if has_out:
+                            is_ufunc = (
+                                hasattr(f, 'nin') and hasattr(f, 'nout')
+                            )
+                            if has_out and not is_ufunc:
                                 f(x, out=out_comp, **kwargs)
                             else:
+                                # ufuncs cannot write their (1, n) result
+                                # for 1d input into the (n,) component
                                 out_comp[:] = f(x, **kwargs)
 
         func_ip = func_oop = array_wrapper_func
